@@ -112,7 +112,10 @@ pub fn check(h: &History) -> CheckResult {
 
 pub fn strat() -> impl Strategy<Value = History> {
     let initial = prop_oneof![4 => Just(Initial::Absent), 2 => Just(Initial::Empty), 8 => (1usize..4, any::<bool>(), any::<bool>(), any::<bool>()).prop_map(|(entries, trailing_newline, comments, with_private)| Initial::Keyring { entries, trailing_newline, comments, with_private }), 1 => prop_oneof![Just(70usize), Just(1100), Just(4200)].prop_map(|kib| Initial::Huge { kib })];
-    (initial, proptest::collection::vec((super::c17::name_strategy(), crate::gen::env_password_strategy()), 1..5), any::<u64>(), prop::bool::weighted(0.35), proptest::option::weighted(0.3, 1u8..4), any::<bool>(), prop::bool::weighted(0.25)).prop_map(|(initial, gens, seed, use_keys, quota_before, stale_new_password, via_symlink)| History { initial, gens, seed, use_keys, quota_before: if via_symlink { None } else { quota_before }, stale_new_password, via_symlink })
+    (initial, proptest::collection::vec((super::c17::name_strategy(), crate::gen::env_password_strategy()), 1..5), any::<u64>(), prop::bool::weighted(0.35), proptest::option::weighted(0.3, 1u8..4), any::<bool>(), prop::bool::weighted(0.25)).prop_map(|(initial, mut gens, seed, use_keys, quota_before, stale_new_password, via_symlink)| {
+        // one history in three generates, after a name, a key whose name is the beginning of that name ("alice-work", then "alice")
+        if seed % 3 == 0 && gens.len() >= 2 { let first = gens[0].0.trim().to_string(); let cut: String = first.chars().take((first.chars().count() + 1) / 2).collect(); let cut = cut.trim().to_string(); if !cut.is_empty() && cut != first { gens[1].0 = cut; } }
+        History { initial, gens, seed, use_keys, quota_before: if via_symlink { None } else { quota_before }, stale_new_password, via_symlink } })
 }
 
 pub fn run(ctx: &Ctx) {
